@@ -144,6 +144,12 @@ def check(ctx):
     users = [f for f in m.funcs.values() if f.module.name.startswith("uberjob.progress") and
              any(g.name == "sorted_scope_items" for c in f.own_calls() for g in m.callee_funcs(f, c))]
     ctx.floor("C20.R1", "renderers using the shared scope ordering", len(users), 3)
+    ctx.rule("C20.R6", "premise of 'every reachable state renders': the totals a run announces are multiplicities >= 1 (evaluated on a symbolic plan) - the HTML display divides by the total")
+    from . import engine as E_e
+    from . import runrules as R_r
+    from .evalrules import rule_totals
+    _rr = R_r.discover(m, E_e.discover(m))
+    ctx.run(lambda c_: rule_totals(c_, "C20.R6", _rr, rid_positive="C20.R6"))
     ctx.run(rule_observer_instance_state, "C20.R2")
     ctx.run(rule_widget_max_before_value, "C20.R2")
     # ---------------------------------------------------------------- R2
